@@ -265,9 +265,14 @@ func TestDriverTwin(t *testing.T) {
 		w.used = map[common.Address]bool{}
 		// process lifetime: some replicas are restarted now and then (a new application instance opened on the replica's
 		// database, configured through app options); only right after a commit, nothing is pending in the stores then
+		rr := r.Fork(777) // its own stream: the number of replicas must not influence the generated history
+		afterDeploy := w.pendingFresh != nil
 		for _, rep := range w.reps {
-			if rep.idx%3 == 1 && b%37 == 17 {
-				require.NoError(t, TwinRestart(rep.c, rep.cfg.MinGas, rep.cfg.Tracer))
+			if rep.idx%3 == 1 && (b%37 == 17 || rr.Chance(5) || (afterDeploy && rr.Bool())) {
+				// every restart with other store settings of app.toml (inter-block cache, IAVL cache size, fast node)
+				rep.restarts++
+				require.NoError(t, TwinRestart(rep.c, rep.cfg.MinGas, rep.cfg.Tracer, TwinNodeStoreOptions(rep.restarts)...))
+				side.Count(fmt.Sprintf("replica_restart_store_options_variant:%d", rep.restarts%3))
 				tr, err := TwinGetEvmTracer(rep.c.App)
 				require.NoError(t, err)
 				require.Equal(t, rep.cfg.Tracer, tr, "the restarted instance did not take evm.tracer from its app options")
